@@ -187,10 +187,13 @@ PROPS["C01"] = dict(
           "writer's archives (V1/V2) read by the Rust reader. non-trivial = a multi-sector file that round-trips"),
     trusted_base=COMMON_TB + [
         "third-party codecs enter the model as a finite table stored-unit -> plain-unit built with wow_mpq::compress",
-        "the whole-archive composition read(open(build files)) = files is established per run by the two-way correspondence, "
-        "not as a single theorem; HET/BET tables, attribute timestamps, user-data headers are not modelled",
-        "probe_mirror is stated for any duplicate-free probe order; that probeSeq is duplicate-free is validated by the run, not proved"],
-    assumptions=["no 64-bit name-hash collision between distinct folded names", "codec round trip on the explored units"],
+        "the whole-archive theorems are about Model.Mpq's writer and reader (classic tables, header V1/V2); that these are "
+        "what the Rust builder and reader do is established per run by the two-way correspondence on real archive bytes; "
+        "V3/V4 headers, HET/BET tables, attribute timestamps, user-data headers, sector checksums are not modelled",
+        "archive_roundtrip's hypotheses: pairwise different (hash A, hash B) pairs of the names (what the format identifies a "
+        "file by), files.length <= hashSize < 2^32-2, archive < 4 GiB, every stored unit either raw or a strictly shorter "
+        "codec output that the codec table maps back and the ratio heuristics admit (D2 is exactly the failure of that clause)"],
+    assumptions=["no 64-bit name-hash collision between distinct folded names (hypothesis DistinctPairs)", "codec round trip on the explored units (hypothesis FileOK)"],
     drivers=[drivers.c01_write_driver],
 )
 
@@ -277,7 +280,7 @@ PROPS["C15"] = dict(
 PROPS["C13"] = dict(
     rule="models over versions Vanilla..MoP (cycled): names of varying length, global sequences, 1..5 bones whose translation/scale tracks draw time lines from a shared pool (shared time line with own values, fully shared tracks, own ranges pre-WotLK), vertices, materials, static transparency tracks, events with and without time lists, attachments with and without animated scale; write -> parse must give the same content (structures through the parser, key frames read from the file through the (count, offset) pairs), a second write the same bytes, conversion to the same version the same bytes and to another version (all 25 pairs over a run) the shared content; the relocated offsets of all bone key-frame blobs are compared with the Lean relocation model's. Skins: old and versioned layouts x every list empty/one/many, write -> parse -> write. non-trivial = a model or skin that passed all comparisons",
     trusted_base=COMMON_TB + [
-        "only the sections listed are generated (no textures, cameras, lights, emitters, colour/texture animations, rotations): their serialisation uses the same relocation scheme but is not exercised; anim files are not generated",
+        "only the sections listed are generated (no lights, emitters, colour/texture animations, rotations): their serialisation uses the same relocation scheme but is not exercised; anim files are not generated",
         "old-layout skins carry at least 6 indices except in the known-finding sample (D40)",
     ],
     assumptions=["rotation tracks (compressed quaternions) are left empty: their element size differs by version and the generator keeps to vec3 tracks"],
@@ -292,3 +295,26 @@ PROPS["C05"] = dict(
     ],
     assumptions=["anim files have no generator (AnimFile::parse runs on the M2 mutants only)"],
 )
+
+# ---- additions made after the second round of seeded changes (what each generator / oracle now also covers)
+EXTRA_RULE = {
+ "C01": "file names use every letter (case folding of the whole alphabet); collision groups on the last hash slot (probe chains that wrap).",
+ "C02": "two reference-written archives in three carry deleted markers (independent writer that added and removed files: Model writeArchiveTomb), names containing every letter incl. z.",
+ "C03": "the in-tree sparse compressor byte for byte on every {0,x} string up to length 10/12 and run-structured inputs; ADPCM mono/stereo combined with every second-stage method on sine, square-wave and click signals; 560 decodes of a 2 MiB block in one process (no budget shared between calls).",
+ "C05": "(attributes) special files parsed directly (7 flag sets x 3 block counts x 10 requested block counts); the last 1..8 bytes cut off every seed; every pair of hostile values over the first 8 dwords for DBC/patch/skin/attributes seeds.",
+ "C06": "adds whose data preparation fails after the early checks passed (unsupported selector combination, ADPCM on odd lengths), as new names and as replaces.",
+ "C07": "reported counts against the harness' own bookkeeping (listed entries, entries the options exclude); fixed witness of D2 through rebuild.",
+ "C09": "requests of 5001/5003/5007 names (own splitting path) in the quick tier; the archive at the same path replaced and extracted again in the same process through every parallel entry point.",
+ "C10": "every protected archive also verified behind a 512- and a 1536-byte prefix; an empty and a one-byte file in every protected archive.",
+ "C11": "traversal names that share a leaf name with an ordinary entry (flattened extraction meets the same base name again); directories followed by more '..' than directories.",
+ "C13": "textures with and without file names, events with per-animation ranges, cameras with any subset of position/target/roll tracks; the relocation correspondence also for the event, attachment and camera sections.",
+ "C14": "every combination of flight bounds / water / texture flags per version (version detection and chunk selection depend on which markers occur together).",
+ "C15": "one root in four with stale header counts (lists edited after the header was filled in); the group writer's bytes through the crate's own group reader (known finding D53).",
+ "C16": "every image class (noise, few colours, fully transparent, gradient, flat opaque) at every size on the exact BGRA target.",
+ "C17": "structured key columns (consecutive, sorted with duplicates and gaps, a duplicate exactly compensating a gap, descending) and lookups of every value in the key range.",
+ "C19": "handles forged in the high 32 bits of live archive and file handles; 24/120 histories on writable archives (SFileCreateArchive2 V1..V4: add with/without replace, remove, rename, flush, compact) with the C API's view of every name compared with a name->bytes map after every call and the closed archive read by the Rust API.",
+ "C20": "a second generation (same names and lengths, other bytes) extracted over the first one's output; --preserve-paths with nested, unsafe and explicit names with and without --skip-errors.",
+}
+for _k, _v in EXTRA_RULE.items():
+    _r = PROPS[_k]["rule"]
+    PROPS[_k]["rule"] = (_r if isinstance(_r, str) else "".join(_r)) + " ALSO: " + _v
